@@ -94,6 +94,8 @@ pub struct Outcome {
 // Panic capture
 
 thread_local! {
+    /// true while a call into the library is running under guard(); a panic outside is a harness bug
+    pub static IN_GUARD: std::cell::Cell<bool> = const { std::cell::Cell::new(false) };
     static LAST_PANIC: RefCell<Option<(String, String)>> = const { RefCell::new(None) };
     /// simulated clock in ms readable by the TCP timestamp generator (a plain fn pointer)
     pub static SIM_MS: std::cell::Cell<u32> = const { std::cell::Cell::new(0) };
@@ -113,6 +115,9 @@ pub fn install_panic_hook() {
             "?".to_string()
         };
         let line = info.location().map(|l| l.line()).unwrap_or(0);
+        if !IN_GUARD.with(|g| g.get()) {
+            eprintln!("harness error: panic outside the library: {} at {}:{}", msg, loc, line);
+        }
         LAST_PANIC.with(|p| *p.borrow_mut() = Some((loc, format!("{} (line {})", msg, line))));
     }));
 }
@@ -137,7 +142,9 @@ pub fn wall_ms() -> i64 {
 pub fn guard<R>(what: &'static str, f: impl FnOnce() -> R) -> Result<R, Violation> {
     let w = WORKER.with(|c| c.get());
     WATCH[w].store(wall_ms(), Ordering::Relaxed);
+    let was = IN_GUARD.with(|g| g.replace(true));
     let r = catch_unwind(AssertUnwindSafe(f));
+    IN_GUARD.with(|g| g.set(was));
     WATCH[w].store(0, Ordering::Relaxed);
     match r {
         Ok(v) => Ok(v),
